@@ -566,7 +566,9 @@ fn geo_session(sc: &Value, tr: &mut Tracer) {
 		let fin1 = r1.out.iter().all(|s| s.is_finite());
 		let fin = r2.out.iter().all(|s| s.is_finite());
 		if extreme {
-			tr.ev(json!({"a": "x", "p": p, "fin": fin, "fin1": fin1,
+			let o = &r2.out;
+			let (gl, gr) = if o.len() >= 2 && fin { (gain6(o[0], input.left), gain6(o[1], input.right)) } else { (0, 0) };
+			tr.ev(json!({"a": "x", "p": p, "fin": fin, "fin1": fin1, "gl": gl, "gr": gr,
 				"msg": r1.panicked.clone().or(r2.panicked.clone()).unwrap_or_default()}));
 		} else {
 			let o = &r2.out;
